@@ -9,7 +9,19 @@ U = 2.0 ** -72         # the unit in the last place of the double 1e-6 (= 472236
 NE = 4722366482869645  # mantissa of the double 1e-6
 NH = (NE - 1) // 2     # NH + (NH + 1) == NE: two stretches that add up to exactly the threshold
 STYLES = ['plain', 'ties', 'coalesce', 'reinserting', 'empty', 'mixed',
-          'pastadds', 'negkids', 'epsgrid', 'decimal', 'diverge', 'clockrel']
+          'pastadds', 'negkids', 'epsgrid', 'decimal', 'diverge', 'clockrel', 'interrupt']
+
+
+class Runaway(BaseException):
+    """(a BaseException: an implementation that wraps the callback in `except Exception` must not swallow it; the
+    watchdog timer repeats for the same reason)  raised by the recorder itself (hard guard, always on): one evolve_until executed more callbacks + integrations
+    than the history can account for (a callback fired again and again), or did not return within the wall-clock
+    watchdog.  Never raised on a correct implementation: generated histories terminate (dry-run `population`)."""
+
+
+class PreRaise(Exception):
+    """raised by the harness's callback wrapper BEFORE it does anything (op ('raise', n): the n-th callback called within
+    one evolve_until) - Lean `loopX`, `raise_eq_fuel_out`"""
 
 
 class FuelGuard(Exception):
@@ -70,6 +82,8 @@ def gen_history_any(rng, big):
         return style, gen_diverge(rng, nids)
     if style == 'clockrel':
         return style, gen_clockrel(rng, nids)
+    if style == 'interrupt':
+        return style, gen_interrupt(rng, big)
     # callback behaviours: zero/small delays only towards larger ids (a DAG), self-reinsertion
     # only with a delay of at least 1/8 so that every history terminates
     for i in range(nids):
@@ -182,6 +196,32 @@ def gen_clockrel(rng, nids):
     return ops
 
 
+def gen_interrupt(rng, big):
+    """A callback raises in the middle of an ordinary (terminating) evolution and the caller resumes: every
+    evolve_until(T) runs under a guard (the g-th callback executed raises after its work), then the guard is taken off
+    and the same target is requested again.  Lean: interrupted_resume / interrupted_entry_lost - the entry whose
+    callback raised is gone (popped before the call), nothing runs twice, the two calls together are the
+    uninterrupted run.  Several interruptions in a row with probability 1/3."""
+    while True:
+        style, base = gen_history_any(rng, big)
+        if style in ('plain', 'ties', 'coalesce', 'reinserting', 'mixed', 'pastadds', 'negkids', 'clockrel'):
+            break
+    # 'guard': the callback raises after its work;  'raise': before doing anything (not with clock-relative children: the
+    # model's `kidsExcept` path works on entry-only callbacks)
+    kind = 'raise' if not clock_relative(base) and rng.random() < 0.5 else 'guard'
+    ops = []
+    for op in base:
+        if op[0] != 'evolve':
+            ops.append(op)
+            continue
+        for _ in range(1 + 2 * int(rng.random() < 0.33)):
+            ops.append((kind, int(rng.integers(1, 12 if kind == 'guard' else 5))))
+            ops.append(op)
+        ops.append((kind, 0))
+        ops.append(op)
+    return ops
+
+
 def clock_relative(ops):
     return any(op[0] == 'kids' and any(len(k) > 2 and k[2] == 'clock' for k in op[2]) for op in ops)
 
@@ -276,6 +316,45 @@ def spell(x, how, shared):
     return x, None
 
 
+KEEP_EVENTS = 4000     # events of one evolve_until kept in memory (a runaway implementation must not eat the machine)
+WATCHDOG_S = 10.0      # wall-clock limit of one evolve_until (an implementation spinning without calling anything)
+_watchdog = [WATCHDOG_S]   # halved after every hit (never below 0.5 s): a tree that hangs must not stall the check for hours
+
+
+def hard_bound(ops):
+    """How many callbacks + integrate() calls ONE evolve_until of this history may execute before the recorder aborts it:
+    four times what the dry run of the whole history executes (each callback is preceded by at most one integration,
+    plus slack for the coalescing the dry run ignores), and at least 200."""
+    return 4 * population(ops, cap=4 * POPULATION_CAP) + 4 * sum(1 for op in ops if op[0] in ('add', 'evolve')) + 200
+
+
+def progress(kids):
+    """(delta, B) when every callback behaviour schedules its children at least delta > 0 after the callback's OWN time
+    and at most B of them (the hypothesis of Lean evolve_total_of_progress); None otherwise."""
+    ds = [d for l in kids.values() for (d, c, kind) in l]
+    if any(kind != 'own' for l in kids.values() for (d, c, kind) in l) or any(d <= 0 for d in ds):
+        return None
+    return (min(ds) if ds else 1.0, max([len(l) for l in kids.values()] + [0]))
+
+
+GEOM_CAP = 10 ** 6
+
+
+def geom(B, n):
+    """1 + B + ... + B^(n-1) (Lean: geom), or None when that exceeds GEOM_CAP (the bound then says nothing a run of at
+    most POPULATION_CAP callbacks could violate)"""
+    if B == 0:
+        return min(n, 1)
+    if B == 1:
+        return n if n <= GEOM_CAP else None
+    g = 0
+    for _ in range(n):
+        g = 1 + B * g
+        if g > GEOM_CAP:
+            return None
+    return g
+
+
 def run_real(ops):
     """Execute a history on hcipy's DynamicOpticalSystem.  Returns per-evolve observations.
 
@@ -286,6 +365,7 @@ def run_real(ops):
     instant passes the system's clock object `self.t` itself back into add_callback.  Everything recorded is a float
     taken at the moment of the observation."""
     import hcipy
+    import signal
 
     class Sys(hcipy.DynamicOpticalSystem):
         def __init__(self):
@@ -293,7 +373,22 @@ def run_real(ops):
             self.events = []
 
         def integrate(self, dt):
-            self.events.append(('I', fl(dt), fl(self.t)))     # the stretch handed over, and the clock it starts from
+            record(('I', fl(dt), fl(self.t)))     # the stretch handed over, and the clock it starts from
+
+    bound = hard_bound(ops)
+    nrec = [0]         # callbacks + integrations of the running evolve_until
+
+    def record(ev):
+        nrec[0] += 1
+        if len(s.events) < KEEP_EVENTS:
+            s.events.append(ev)
+        if nrec[0] > bound:
+            raise Runaway('more than %d callbacks + integrations in one evolve_until' % bound)
+
+    def on_alarm(signum, frame):
+        w = _watchdog[0]
+        _watchdog[0] = max(0.5, w / 2)
+        raise Runaway('no return within %g s' % w)
 
     s = Sys()
     kids = {}
@@ -304,6 +399,7 @@ def run_real(ops):
     npoison = [0]
     guard = [0]        # > 0: the guard-th callback executed within one evolve_until raises FuelGuard after its work
     nexec = [0]
+    pre = [0]          # > 0: the pre-th callback called within one evolve_until raises PreRaise before doing anything
     wf = [True]        # every child delay so far is >= 0 (Lean: WF kids)
 
     def snap():
@@ -344,7 +440,10 @@ def run_real(ops):
         scheduled.append((t, ctr, cid))
 
         def cb():
-            s.events.append(('F', t, ctr, cid, fl(s.t)))
+            record(('F', t, ctr, cid, fl(s.t)))
+            if pre[0] and nexec[0] + 1 >= pre[0]:
+                nexec[0] += 1
+                raise PreRaise()
             for d, child, kind in kids.get(cid, []):
                 if kind == 'clock':
                     tc = fl(s.t) + d                # the docstring idiom: self.t + period
@@ -379,6 +478,8 @@ def run_real(ops):
             mode.add(op[1])
         elif op[0] == 'guard':
             guard[0] = int(op[1])
+        elif op[0] == 'raise':
+            pre[0] = int(op[1])
         elif op[0] == 'add':
             if float(op[1]) < hz:
                 adds_after_horizon = False
@@ -388,11 +489,20 @@ def run_real(ops):
         elif op[0] == 'evolve':
             s.events = []
             nexec[0] = 0
+            nrec[0] = 0
             t0 = fl(s.t)
+            q0 = sorted(fl(q[0]) for q in s.callbacks)
             n_sched0 = len(scheduled)
             status = 'ok'
             how = op[2] if len(op) > 2 else 'f'
             arg, mut = spelled(op[1], how)
+            why = ''
+            old_handler = None
+            try:
+                old_handler = signal.signal(signal.SIGALRM, on_alarm)
+                signal.setitimer(signal.ITIMER_REAL, _watchdog[0], 0.5)
+            except (ValueError, AttributeError, OSError):      # not the main thread / no SIGALRM: the count guard remains
+                old_handler = None
             try:
                 s.evolve_until(arg)
             except ValueError:
@@ -401,8 +511,16 @@ def run_real(ops):
                 status = 'index'
             except FuelGuard:
                 status = 'fuel'
+            except PreRaise:
+                status = 'raised'
+            except Runaway as e:
+                status, why = 'runaway', str(e)
             except Exception as e:  # noqa
                 status = 'other:' + type(e).__name__
+            finally:
+                if old_handler is not None:
+                    signal.setitimer(signal.ITIMER_REAL, 0)
+                    signal.signal(signal.SIGALRM, old_handler)
             if status != 'value':
                 hz = max(hz, float(op[1]))
             t1 = fl(s.t)
@@ -412,8 +530,12 @@ def run_real(ops):
             obs.append({'T': float(op[1]), 'status': status, 't0': t0, 't1': t1, 'ctr': s.callback_counter,
                         'events': list(s.events), 'queue': queue, 'scheduled': list(scheduled), 'n_sched0': n_sched0,
                         'hz': hz, 'adds_after_horizon': adds_after_horizon, 'alias': alias,
-                        'adds_from_clock': adds_from_clock, 'wf': wf[0], 'guard': guard[0]})
+                        'adds_from_clock': adds_from_clock, 'wf': wf[0], 'guard': guard[0], 'why': why,
+                        'q0': q0, 'progress': progress(kids), 'pre': pre[0],
+                        'nrec': nrec[0]})
             alias = []
+            if status == 'runaway':
+                break           # the system is in the middle of a loop that does not end: the history stops here
     if alias and obs:
         obs[-1]['alias'] = obs[-1]['alias'] + alias
     if obs:
@@ -422,7 +544,7 @@ def run_real(ops):
         obs[-1]['final_flags'] = (adds_after_horizon, adds_from_clock)
         # the same target once more must be accepted (it is not backwards): a zero-length evolution
         last = obs[-1]
-        if last['status'] == 'ok' and not guard[0]:
+        if last['status'] == 'ok' and not guard[0] and not pre[0]:
             try:
                 n0 = len(s.events)
                 s.evolve_until(last['T'])
@@ -450,9 +572,11 @@ def real_hist_line(obs, ops):
     fuel = FUEL
     for op in ops:
         if op[0] == 'guard':
-            fuel = int(op[1])
+            fuel = int(op[1]) or FUEL
         elif op[0] == 'evolve':
             fuels.add(fuel)
+    if any(o['status'] == 'raised' for o in obs):
+        fuels.add(-1)       # the model ran that call on the fuel of raise_eq_fuel_out
     # `replay`: the model re-ran the whole history through runOps with one entry-only callback table and one fuel and
     # got the same Hist (not attempted when the guard, i.e. the fuel, changed within the history)
     # the hypotheses of history_inv / history_exactly_once as the harness classified the real history (these flags gate
@@ -511,23 +635,80 @@ def real_line(o):
         rat(fires[-1][4] if fires else o['t0']))
 
 
-def model_lines(ops):
+ARRAYS = ('0d', '1d', '0ds', '1ds')
+
+
+def progress_fuels(ops, obs):
+    """The explicit fuel of Lean `evolve_total_of_progress` for every evolve_until of a history that meets its hypotheses
+    (no guard; every callback behaviour schedules its children >= delta > 0 after its own time, at most B of them;
+    nothing queued before the clock when the call starts): N = |queue| * geom(B, ceil((T - t) / delta)) + 1.
+    None when the history does not qualify."""
+    import math
+    if any(op[0] in ('guard', 'raise') for op in ops) or not obs or len(obs) != sum(1 for op in ops if op[0] == 'evolve'):
+        return None
+    out = []
+    for o in obs:
+        if o['status'] not in ('ok', 'value') or not o.get('progress') or any(q < o['t0'] for q in o['q0']):
+            return None
+        delta, B = o['progress']
+        n = max(0, math.ceil((Fraction(o['T']) - Fraction(o['t0'])) / Fraction(delta)))
+        if geom(B, n) is None:
+            return None
+        out.append(len(o['q0']) * geom(B, n) + 1)
+    return out
+
+
+def model_lines(ops, fuels=None, obs=None):
+    """The history as the CALLER's program (Lean: `ROp`, Model/SchedulerRef.lean): a time handed over as a caller-owned
+    array is a reference to a cell (`cell k x` = the caller writes x into its array k; `addref` / `evolveref` hand the
+    cell over), and the in-place change the caller makes right after the call (`poison` in run_real: += 0.5, += 1024.5,
+    = -3.5 in turn) is one more `cell` write.  Cells 0 / 1 are the two running-time arrays of a history, fresh arrays
+    get fresh cells.  Other spellings are values."""
     lines = ['C20 reset']
     idx = []
     fuel = FUEL
+    fuels = list(fuels) if fuels else None    # per-evolve fuels (progress_fuels) instead of FUEL
+    npoison = 0
+    fresh = 2
     for op in ops:
+        how = (op[3] if len(op) > 3 else 'f') if op[0] == 'add' else (op[2] if len(op) > 2 else 'f') if op[0] == 'evolve' else 'f'
+        cell = None
+        if how in ARRAYS:
+            if how == '0ds':
+                cell = 0
+            elif how == '1ds':
+                cell = 1
+            else:
+                cell, fresh = fresh, fresh + 1
+            lines.append('C20 cell %d %s' % (cell, rat(op[1])))
         if op[0] == 'kids':
             lines.append('C20 kids %d %s' % (op[1], ','.join(
                 '%s:%d:%s' % (rat(k[0]), k[1], 'c' if len(k) > 2 and k[2] == 'clock' else 'o') for k in op[2]) or '-'))
         elif op[0] == 'add':
-            lines.append('C20 add %s %d' % (rat(op[1]), op[2]))
+            lines.append('C20 add %s %d' % (rat(op[1]), op[2]) if cell is None else 'C20 addref %d %d' % (cell, op[2]))
         elif op[0] == 'mode':
-            continue            # how the times are spelled is invisible to the model: times are values
+            continue            # callbacks passing the clock object back: times are values
+        elif op[0] == 'raise':
+            pass                # which callback raised is read off the real run (`evolvex`)
         elif op[0] == 'guard':
-            fuel = int(op[1])   # the N-th callback raises  <->  the model runs on fuel N
+            fuel = int(op[1]) or FUEL   # the N-th callback raises  <->  the model runs on fuel N (0: no guard)
         else:
             idx.append(len(lines))
-            lines.append('C20 evolve %s %d new' % (rat(op[1]), fuel))
+            if fuels:
+                fuel = fuels.pop(0)
+            o = obs[len(idx) - 1] if obs is not None and len(idx) - 1 < len(obs) else None
+            if o is not None and o['status'] == 'raised':
+                # the callback that raised at once: the last one called (Lean: loopX with raises = (ctr == c))
+                c = [e for e in o['events'] if e[0] == 'F'][-1][2]
+                lines.append('C20 evolvex %s %d %d new' % (rat(op[1]), fuel, c))
+            else:
+                lines.append('C20 evolve %s %d new' % (rat(op[1]), fuel) if cell is None else 'C20 evolveref %d %d new' % (cell, fuel))
+        if cell is not None:
+            v = float(op[1])
+            v = v + 0.5 if npoison % 3 == 0 else v + 1024.5 if npoison % 3 == 1 else -3.5
+            npoison += 1
+            lines.append('C20 cell %d %s' % (cell, rat(v)))
+    lines.append('C20 byref')
     lines.append('C20 hist')
     return lines, idx
 
@@ -564,7 +745,7 @@ def oracle(obs):
             bad.append(('forwards-refused', 'evolve_until(%r) with the clock at %r (not ahead of the target) was refused as backwards'
                         % (T, o['t0'])))
             continue
-        if o['status'] == 'fuel' and o.get('guard'):
+        if (o['status'] == 'fuel' and o.get('guard')) or (o['status'] == 'raised' and o.get('pre')):
             # the harness's guard interrupted the evolution: what holds whatever the status (conservation_perm,
             # fired_nodup, fired_lt_horizon, trace_consistent)
             if len(set(fired_keys)) != len(fired_keys):
@@ -573,14 +754,50 @@ def oracle(obs):
             if not set(fired_keys) <= known:
                 bad.append(('exactly-once', 'a callback ran that was not due before T=%r or had run already' % (T,)))
             executed_before |= set(fired_keys)
-            if len(fires) != o['guard']:
-                bad.append(('guard', 'the guard tripped after %d callbacks, not %d' % (len(fires), o['guard'])))
+            if set(fired_keys) & set(o['queue']):
+                bad.append(('raised-callback-requeued', 'a callback that was executed (the last one raised) is still queued: %r'
+                            % (sorted(set(fired_keys) & set(o['queue']))[:3],)))
+            # the state after the exception (Lean: raise_eq_fuel_out / trace_consistent for any status): the clock is the
+            # one the raising callback saw - the stretch integrated up to it is neither rolled back nor extended - and
+            # the stretches integrated so far add up to the clock's movement
+            if fires and o['t1'] != fires[-1][4]:
+                bad.append(('clock-after-exception', 'the callback due at %r raised with the clock at %r; afterwards the clock is %r'
+                            % (fires[-1][1], fires[-1][4], o['t1'])))
+            dts_x = [e[1] for e in o['events'] if e[0] == 'I']
+            if abs(sum(dts_x) - (o['t1'] - o['t0'])) > 1e-9 * max(1.0, abs(o['t1'])):
+                bad.append(('tiling', 'interrupted by an exception: integration intervals sum to %r but the clock moved by %r'
+                            % (sum(dts_x), o['t1'] - o['t0'])))
+            want = o['guard'] if o['status'] == 'fuel' else o['pre']
+            if len(fires) != want:
+                bad.append(('guard', 'the guard tripped after %d callbacks, not %d' % (len(fires), want)))
+            continue
+        if o['status'] == 'runaway':
+            # the recorder's hard guard aborted the call: termination (Lean: evolve_total_of_progress - the generated
+            # histories meet its hypothesis or are acyclic) and, on the prefix observed, exactly-once
+            twice = sorted(set(k for k in fired_keys if fired_keys.count(k) > 1))[:3] if len(fired_keys) <= KEEP_EVENTS else []
+            bad.append(('does-not-terminate', 'evolve_until(%r) from clock %r did not return: %s (%d recorded); first events %r'
+                        % (T, o['t0'], o.get('why', ''), o.get('nrec', 0), o['events'][:6])))
+            if len(set(fired_keys)) != len(fired_keys):
+                bad.append(('exactly-once', 'a callback ran twice (fired-more-than-once): %r' % (twice,)))
             continue
         if o['status'] != 'ok':
             pending = [q for q in o['queue']]
             key = 'raises-%s%s' % (o['status'], '-empty-queue' if not pending else '')
             bad.append((key, 'evolve_until(%r) raised %s (queue %s)' % (T, o['status'], 'empty' if not pending else 'non-empty')))
             continue
+        if (o.get('guard') and len(fires) >= o['guard']) or (o.get('pre') and len(fires) >= o['pre']):
+            bad.append(('callback-exception-swallowed', 'the %d-th callback of evolve_until(%r) raised, but the call returned normally '
+                        'after %d callbacks' % (o.get('guard') or o.get('pre'), T, len(fires))))
+        # termination with the explicit bound (Lean: evolve_total_of_progress): children at least delta after their
+        # parent, at most B of them, nothing queued before the clock -> at most |queue| * (1 + B + .. + B^(n-1)) callbacks,
+        # n = ceil((T - t0) / delta)
+        if o.get('progress') and all(q >= o['t0'] for q in o['q0']):
+            import math
+            delta, B = o['progress']
+            n = max(0, math.ceil((Fraction(T) - Fraction(o['t0'])) / Fraction(delta)))
+            if geom(B, n) is not None and len(fires) > len(o['q0']) * geom(B, n):
+                bad.append(('progress-bound', 'evolve_until(%r) from clock %r with %d queued executed %d callbacks, more than %d * geom(%d, %d)'
+                            % (T, o['t0'], len(o['q0']), len(fires), len(o['q0']), B, n)))
         # exactly once: everything ever scheduled with time < T and not executed earlier
         due = set((t, c) for (t, c, i) in o['scheduled'] if t < T) - executed_before
         if len(set(fired_keys)) != len(fired_keys):
@@ -684,6 +901,10 @@ DIRECTED = [
     ('diverge', [('guard', 7), ('kids', 0, [(0.0, 0)]), ('add', 1.0, 0), ('evolve', 2.0), ('evolve', 2.0)]),
     ('diverge', [('guard', 1), ('add', 0.5, 0), ('add', 0.75, 1), ('evolve', 1.0), ('guard', 2), ('evolve', 1.0), ('evolve', 2.0)]),
     ('diverge', [('guard', 5), ('kids', 0, [(0.0, 1)]), ('kids', 1, [(-0.25, 0)]), ('add', 1.0, 0), ('evolve', 2.0), ('guard', 3), ('evolve', 3.0)]),
+    # a callback that raises at once (Lean loopX / raise_eq_fuel_out): entry lost, clock at its stop, resume completes
+    ('interrupt', [('raise', 1), ('add', 1.0, 0), ('add', 2.0, 1), ('evolve', 3.0), ('raise', 0), ('evolve', 3.0)]),
+    ('interrupt', [('kids', 0, [(0.25, 0), (0.0, 1)]), ('raise', 3), ('add', 0.5, 0), ('add', 0.5 + 2 * TINY, 2), ('evolve', 2.0), ('evolve', 2.0),
+                   ('raise', 0), ('evolve', 2.0)]),
     # Lean final_clock_below_target_possible: the clock ends strictly below the target
     ('below-target', [('evolve', 2 * TINY), ('evolve', 3 * TINY), ('evolve', 5 * TINY)]),
     # the threshold itself: a stretch of exactly the double 1e-6 is not integrated, one ulp more is
@@ -778,16 +999,26 @@ def run(ctx):
     all_lines = []
     index = []
     observations = []
+    tight = []
+    n_tight = ctx.scale(150, 1500)
     for style, ops in hist:
         obs = check_history(ctx, style, ops)
         if clock_relative(ops):
             ctx.count('histories_with_clock_relative_children')
             ctx.count('clock_relative_wf:%s' % (obs[-1]['wf'] if obs else True))
-        lines, idx = model_lines(ops)
+        lines, idx = model_lines(ops, obs=obs)
         base = len(all_lines)
         all_lines += lines
         index.append([base + i for i in idx] + [base + len(lines) - 1])
         observations.append((style, ops, obs))
+        # the same history once more on exactly the fuel of evolve_total_of_progress (when its hypotheses hold): the
+        # model must return (not run out of fuel) and print the same lines, i.e. the real unbounded loop's run
+        pf = progress_fuels(ops, obs)
+        if pf is not None and len(tight) < n_tight:
+            lines2, idx2 = model_lines(ops, fuels=pf)
+            base2 = len(all_lines)
+            all_lines += lines2
+            tight.append((ops, obs, [base2 + i for i in idx2], pf))
     eps_line = len(all_lines)
     all_lines.append('C20 eps %s' % (rat(consts[0]) if len(consts) == 1 else '0'))
     out = ctx.model(all_lines)
@@ -795,8 +1026,24 @@ def run(ctx):
     if len(consts) != 1 or out[eps_line] != 'ok':
         ctx.disagree('C20 eps', {'impl': 'float literals of DynamicOpticalSystem.evolve_until: %r' % (consts,),
                                  'model': out[eps_line] + ' (eps of Model/Scheduler.lean)'})
+    for ops, obs, idx2, pf in tight:
+        ctx.count('histories_rerun_on_the_fuel_of_evolve_total_of_progress')
+        ctx.count('progress_fuel_total', sum(pf))
+        ctx.count('progress_callbacks_total', sum(1 for o in obs for e in o['events'] if e[0] == 'F'))
+        for o, i, f in zip(obs, idx2, pf):
+            ctx.traces_validated += 1
+            if real_line(o) != out[i]:
+                ctx.disagree('C20 evolve on the fuel of evolve_total_of_progress',
+                             {'ops': ops, 'T': o['T'], 'fuel': f, 'impl': real_line(o), 'model': out[i]})
+                break
     for (style, ops, obs), idx in zip(observations, index):
         ihist = idx.pop()
+        # stored by value (Lean: stored_by_value / Bad.byReference): the caller program replayed through `runG .copy`
+        # gives the model's history; would the by-reference scheduler have run something else on this program?
+        byref = dict(tok.split('=') for tok in out[ihist - 1].split())
+        ctx.count('by_reference_scheduler_would_differ:' + byref.get('differs', '?'))
+        if byref.get('replayG') not in ('true', 'na'):
+            ctx.disagree('C20 byref', {'ops': ops, 'model': out[ihist - 1]})
         agree = True
         for o, i in zip(obs, idx):
             ctx.traces_validated += 1
@@ -804,13 +1051,15 @@ def run(ctx):
                 raise MachineryError('model ran out of fuel on %r' % (ops,))
             if o['status'] == 'fuel':
                 ctx.count('evolves_interrupted_by_guard')
+            if o['status'] == 'raised':
+                ctx.count('evolves_interrupted_by_a_callback_raising_at_once')
             if real_line(o) != out[i]:
                 ctx.disagree('C20 evolve', {'ops': ops, 'T': o['T'], 'impl': real_line(o), 'model': out[i]},
                              key=('raises-index-empty-queue' if o['status'] == 'index' else None))
                 agree = False
                 break
         # whole-history summary: time evolved to, clock, #created, #executed, #pending, global order
-        if agree and obs and all(o['status'] in ('ok', 'value', 'fuel') for o in obs):
+        if agree and obs and all(o['status'] in ('ok', 'value', 'fuel', 'raised') for o in obs):
             ctx.traces_validated += 1
             ctx.count('history_summaries_compared')
             for flag in ('adds_after_horizon', 'adds_from_clock', 'wf'):
